@@ -104,9 +104,9 @@ Definition parties (o : op) : list addr :=
   end.
 
 Lemma step_total s o s' res d :
-  wf s -> incl (parties o) U -> step h s o = (s', res) -> total U (s_bal s') d = total U (s_bal s) d.
+  wf s -> named_ok o -> incl (parties o) U -> step h s o = (s', res) -> total U (s_bal s') d = total U (s_bal s) d.
 Proof.
-  intros Hw Hp. destruct o as [a|a|from to c|from inc outs|ins to|to froms perm|to froms perm|to ups]; cbn [step parties] in *.
+  intros Hw Hno Hp. destruct o as [a|a|from to c|from inc outs|ins to|to froms perm|to froms perm|to ups]; cbn [step parties] in *.
   - intros [= <- _]. unfold opt_in. destruct (is_optin s a); reflexivity.
   - intros [= <- _]. reflexivity.
   - unfold lift. destruct (send h s from to c) as [s1|] eqn:E; intros [= <- _]; [|reflexivity].
@@ -147,7 +147,7 @@ Proof.
     rewrite (credits_total _ _ _ d Hts E), (debits_total _ _ _ d Hin Ed). rewrite map_map. cbn [snd].
     change (map (fun x : addr * coins => snd x) ins) with (map snd ins). lia.
   - destruct (accept h s to froms perm) as [[s1 rel]|] eqn:E; intros [= <- _]; [|reflexivity].
-    destruct (accept_spec h _ _ _ _ _ _ Hw E) as (_ & _ & Hb & _).
+    destruct (accept_spec h _ _ _ _ _ _ Hw Hno E) as (_ & _ & Hb & _).
     rewrite (total_ext U (s_bal s1) (bal_add (bal_sub (s_bal s) h rel) to rel) d) by (intros a; apply Hb).
     rewrite total_add_in, total_sub_in; try assumption; [lia|]. apply Hp. left. reflexivity.
   - unfold lift. destruct (decline s to froms perm) as [s1|] eqn:E; intros [= <- _]; [|reflexivity].
@@ -167,7 +167,7 @@ Proof.
   inversion Hs as [|? ? Hs1 Hs2]; subst. inversion Hp as [|? ? Hp1 Hp2]; subst.
   destruct (step h s o) as [s1 res] eqn:E. cbn [fst]. fold (run h s1 ops).
   destruct (step_slack h _ _ _ _ 1%positive Hw Hs1 E) as (Hw1 & _).
-  rewrite (IH s1 d Hw1 Hs2 Hp2). apply (step_total _ _ _ _ d Hw Hp1 E).
+  rewrite (IH s1 d Hw1 Hs2 Hp2). apply (step_total _ _ _ _ d Hw (signer_named h o Hs1) Hp1 E).
 Qed.
 
 End Conservation.
